@@ -250,3 +250,5 @@ M("C02", "C02.pred.algebra", _R, "        ) and not self.footprint.regionB.inter
 # --- agreement with the CPython grammar ---------------------------------------------------------------------------------
 _G = "src/scenic/syntax/scenic.gram"
 M("C09", "C09.reference", _G, "    | a=param_no_default+ b=param_with_default* c=[star_etc] {\n        self.make_arguments(None, [], a, b, c)\n", "    | a=param_no_default+ b=param_with_default* c=[star_etc] {\n        self.make_arguments(None, a, [], b, c)\n", "c09-params-posonly-slot")
+
+M("C12", "C12.order", "src/scenic/core/simulators.py", "            if maxSteps and self.currentTime >= maxSteps:", "            if maxSteps and self.currentTime > maxSteps:", "c12-step-limit-off-by-one")
